@@ -33,6 +33,9 @@ func houdiniCandidates(fn *ssa.Function) map[int][]*Clause {
 					Expr: &SBinary{"&&", &SBinary{">=", &SIdent{"__iter"}, &SUnary{"-", &SLit{big.NewInt(1)}}}, &SBinary{"<=", &SIdent{"__iter"}, &SLit{pow2(40)}}}})
 			case isInt && strings.HasPrefix(p.Comment, "rangeint"):
 				out[li.Ordinal] = append(out[li.Ordinal], &Clause{Text: "__iter >= 0 (auto)", Expr: &SBinary{">=", &SIdent{"__iter"}, &SLit{big.NewInt(0)}}})
+				if rangeIntBound(li) != nil {
+					out[li.Ordinal] = append(out[li.Ordinal], &Clause{Text: "__iter < __bound (auto)", Expr: &SBinary{"<", &SIdent{"__iter"}, &SIdent{"__bound"}}})
+				}
 			case isInt && isIdent(p.Comment):
 				ints = append(ints, p.Comment)
 				out[li.Ordinal] = append(out[li.Ordinal], &Clause{Text: p.Comment + " >= 0 (auto)", Expr: &SBinary{">=", &SIdent{p.Comment}, &SLit{big.NewInt(0)}}})
